@@ -115,8 +115,8 @@ func (f *CountIf) inList(s *slip.Scope, seq slip.List, depth int, sfv *seqFunVar
 
 func (f *CountIf) inString(s *slip.Scope, seq slip.String, depth int, sfv *seqFunVars) (count int) {
 	ra := []rune(seq)
-	if sfv.end < 0 || len(seq) < sfv.end {
-		sfv.end = len(seq)
+	if sfv.end < 0 || len(ra) < sfv.end {
+		sfv.end = len(ra)
 	}
 	d2 := depth + 1
 	var key slip.Object
